@@ -77,10 +77,12 @@ Reachable(d)  == ReachFrom(d, Roots(d), {})
 (* --- static data-flow facts ------------------------------------------------------------- *)
 PubSites(d, v) == {<<t, i>> \in TaskNames(d) \X (1..4) :
                      i <= Len(d.tasks[t].next) /\ \E k \in 1..Len(d.tasks[t].next[i].pub) : d.tasks[t].next[i].pub[k][1] = v}
-Ordered(d, a, b) == a \in ReachFrom(d, Succ(d, b), {}) \/ b \in ReachFrom(d, Succ(d, a), {})
+TargetsOf(d, site) == {d.tasks[site[1]].next[site[2]].do[j] : j \in 1..Len(d.tasks[site[1]].next[site[2]].do)} \cap TaskNames(d)
+(* site s1 precedes s2: the publisher of s2 is at or below a target of s1's transition *)
+Precedes(d, s1, s2) == s2[1] \in ReachFrom(d, TargetsOf(d, s1), {})
 (* v may be written by two causally unordered branches (static over-approximation) *)
 ConcurrentlyWritten(d, v) ==
-  \E s1, s2 \in PubSites(d, v) : s1 # s2 /\ (s1[1] = s2[1] \/ ~Ordered(d, s1[1], s2[1]))
+  \E s1, s2 \in PubSites(d, v) : s1 # s2 /\ ~Precedes(d, s1, s2) /\ ~Precedes(d, s2, s1)
 DepVar(e) == IF e.k \in {"ctx", "inc"} THEN {e.v} ELSE {}
 
 (* --- denotation of the abstract expression language ------------------------------------- *)
